@@ -186,6 +186,46 @@ class TMap(Ty):
         return self.mk(z3.EmptySet(self.key.sort()), arr)
 
 
+class TList(Ty):
+    """Python list modelled as (len, Array Int -> T): quantified invariants over it stay in the array property fragment"""
+
+    def __init__(self, elem: Ty):
+        self.elem = elem
+        self.name = f"List[{elem.name}]"
+
+    def _dt(self):
+        k = "DT:" + self.name
+        if k not in _dt_cache:
+            n = _san(self.name)
+            d = z3.Datatype(n)
+            d.declare("mk_" + n, ("len_" + n, z3.IntSort()), ("arr_" + n, z3.ArraySort(z3.IntSort(), self.elem.sort())))
+            _dt_cache[k] = d.create()
+        return _dt_cache[k]
+
+    def sort(self):
+        return self._dt()
+
+    def mk(self, n, arr):
+        return SV(getattr(self._dt(), "mk_" + _san(self.name))(n, arr), self)
+
+    def len(self, x):
+        return SV(getattr(self._dt(), "len_" + _san(self.name))(x.t), TInt)
+
+    def arr(self, x):
+        return getattr(self._dt(), "arr_" + _san(self.name))(x.t)
+
+    def at(self, x, i):
+        return SV(z3.Select(self.arr(x), lift(i, TInt).t), self.elem)
+
+    def empty(self):
+        arr = z3.Const("emptylist_" + _san(self.name), z3.ArraySort(z3.IntSort(), self.elem.sort()))
+        return self.mk(z3.IntVal(0), arr)
+
+    def append(self, x, v):
+        n = self.len(x).t
+        return self.mk(n + 1, z3.Store(self.arr(x), n, lift(v, self.elem).t))
+
+
 class TTuple(Ty):
     def __init__(self, elems):
         self.elems = tuple(elems)
@@ -447,6 +487,8 @@ class SV:
             return SV(z3.Select(ty.arr(self), lift(i, ty.key).t), ty.val)
         if isinstance(ty, TFn):
             return SV(z3.Select(self.t, lift(i, ty.arg).t), ty.ret)
+        if isinstance(ty, TList):
+            return ty.at(self, i)
         if isinstance(ty, TSeq) or ty == TStr:
             if isinstance(i, slice):
                 return seq_slice(self, i.start, i.stop)
@@ -467,6 +509,8 @@ class SV:
         if ty == TStr:
             return SV(z3.Contains(self.t, lift(x, TStr).t), TBool)
         if isinstance(ty, TSeq):
+            if isinstance(x, (bytes, tuple, list)):
+                return SV(z3.Contains(self.t, lift(x, ty).t), TBool)
             xv = lift(x, ty.elem) if not (isinstance(x, SV) and x.ty == ty) else x
             if xv.ty == ty:
                 return SV(z3.Contains(self.t, xv.t), TBool)
@@ -477,6 +521,8 @@ class SV:
         ty = self.ty
         if isinstance(ty, TSeq) or ty == TStr:
             return SV(z3.Length(self.t), TInt)
+        if isinstance(ty, TList):
+            return ty.len(self)
         raise Unsupported(f"len() of {ty.name} (cardinality is not modelled)")
 
     def union(self, o):
@@ -575,6 +621,8 @@ def lift(v, ty: Ty | None = None) -> SV:
             if isinstance(v.ty, TOpt):
                 raise Unsupported(f"cannot coerce {v.ty} to {ty}")
             return ty.some(lift(v, ty.elem))
+        if isinstance(ty, TRef) and isinstance(v.ty, TRef) and (v.ty.isa(ty.cls) or ty.isa(v.ty.cls)):
+            return SV(v.t, ty)
         if ty == TReal and v.ty == TInt:
             return SV(z3.ToReal(v.t), TReal)
         if ty == TInt and v.ty == TBool:
@@ -620,6 +668,12 @@ def lift(v, ty: Ty | None = None) -> SV:
             if not parts:
                 return SV(z3.Empty(ty.sort()), ty)
             return SV(parts[0] if len(parts) == 1 else z3.Concat(*parts), ty)
+    elif isinstance(ty, TList):
+        if isinstance(v, (tuple, list)):
+            acc = ty.empty()
+            for x in v:
+                acc = ty.append(acc, x)
+            return acc
     elif isinstance(ty, TTuple):
         if isinstance(v, (tuple, list)) and len(v) == len(ty.elems):
             return ty.mk(*v)
@@ -675,6 +729,7 @@ def unify(a, b):
 
 
 _canon_fn: dict[str, object] = {}
+BACKGROUND: list = []  # definitional axioms added to every query
 
 
 def canon(v: SV) -> SV:
@@ -684,13 +739,17 @@ def canon(v: SV) -> SV:
     ty = v.ty
     if not _needs_canon(ty):
         return v
-    f = _canon_fn.get(ty.name)
-    if f is None:
-        f = z3.RecFunction("canon_" + _san(ty.name), ty.sort(), ty.sort())
-        _canon_fn[ty.name] = f
-        x = SV(z3.Const("x!canon_" + _san(ty.name), ty.sort()), ty)
-        z3.RecAddDefinition(f, [x.t], _canon_body(x).t)
-    return SV(f(v.t), ty)
+    k = (v.t.get_id(), ty.name)
+    r = _canon_cache.get(k)
+    if r is None:
+        r = _canon_body(v)
+        _canon_cache[k] = r
+        _canon_keep.append(v.t)  # keep the AST alive so that its id is not reused
+    return r
+
+
+_canon_cache: dict = {}
+_canon_keep: list = []
 
 
 def _canon_body(v: SV) -> SV:
